@@ -135,4 +135,21 @@ PROPS = {
         'assumptions': [],
         'partial': ['munch lemmas proved for identifiers, whitespace, line comments, 22 punctuation characters; other classes by correspondence/oracle only'],
     },
+    'C12': {
+        'coq': 'Props/C12.v',
+        'families': [
+            {'name': 'tree',
+             'args': {'quick': ['--corpus', 1, '--mutants', 2500, '--lexemes', 1500, '--templates', 3000, '--random', 3000],
+                      'thorough': ['--corpus', 1, '--mutants', 60000, '--lexemes', 30000, '--templates', 100000, '--random', 80000]},
+             'shards': {'quick': 16, 'thorough': 16}, 'driver_args': []},
+        ],
+        'exhaustive': {'quick': False, 'thorough': False},
+        'rule': 'text-level pipeline on corpus snippets, token mutants, lexeme sequences (incl. non-ASCII identifiers and strings), templates '
+                'and fragment soups; the model/implementation comparison includes every parser diagnostic offset, lexical diagnostic range and '
+                'timing-literal validation range; the oracle slices the text by every reported range (bounds, char boundaries) and requires a '
+                'diagnostic whenever the tree has an ERROR node or token',
+        'trusted_base': ['as C01/C02'],
+        'assumptions': ['semantic diagnostic spans are checked by the sema families of C03/C13 (range = node range of the file that holds them)'],
+        'partial': ['error-node => diagnostic and semantic spans: oracle only; escape validation offsets come from the unmodelled unescape module'],
+    },
 }
